@@ -6,7 +6,7 @@ from typing import Dict, List, Optional
 
 from ..core import Ctx
 from ..model import dotted, kwarg, norm, walk_no_nested
-from .common import assigned_value, enclosing, resolve_local
+from .common import assigned_value, enclosing, expand_locals, resolve_local
 
 ROLES = ("annotator", "label", "start", "end")
 
@@ -52,19 +52,21 @@ def run(ctx: Ctx):
     ctx.require(len(rows) == 1, "R-C18-1", "single writerow call expected")
     loop = enclosing(w.node, rows[0], (ast.For,))
     wr: Dict[str, int] = {}
+    n_cols = -1
     ok_iter = False
     if loop and norm(loop[-1].iter) == ws and isinstance(loop[-1].target, ast.Tuple):
         a, u = norm(loop[-1].target.elts[0]), norm(loop[-1].target.elts[1])
         ok_iter = True
-        row = rows[0].args[0]
+        row = expand_locals(w.node, rows[0].args[0])
         if isinstance(row, (ast.List, ast.Tuple)):
+            n_cols = len(row.elts)
             for i, e in enumerate(row.elts):
                 t = norm(e)
                 role = {a: "annotator", f"{u}.annotation": "label", f"{u}.segment.start": "start", f"{u}.segment.end": "end"}.get(t)
                 if role:
                     wr[role] = i
     ctx.check(ok_iter, "R-C18-1", w, loop[-1] if loop else None, "one row per (annotator, unit) of the continuum", key="writer-iter")
-    ctx.check(sorted(wr) == sorted(ROLES) and len(rows[0].args[0].elts) == 4, "R-C18-1", w, rows[0],
+    ctx.check(sorted(wr) == sorted(ROLES) and n_cols == 4, "R-C18-1", w, rows[0],
               f"writer columns: {wr}", bad_detail=f"writer does not emit the four roles exactly once: {wr}", key="writer-roles")
     ctx.check(kwarg(wc, "delimiter") is not None and norm(kwarg(wc, "delimiter")) == "delimiter" and "delimiter" in w.params, "R-C18-1", w, wc,
               "delimiter parameter reaches csv.writer", bad_detail="to_csv's delimiter does not reach csv.writer", key="writer-delim")
@@ -139,11 +141,26 @@ def run(ctx: Ctx):
     ok3 = False
     if len(trs) == 1 and len(trs[0].handlers) == 1 and trs[0].handlers[0].type is not None and norm(trs[0].handlers[0].type) == "ValueError":
         h = trs[0].handlers[0]
-        ifs = [s for s in h.body if isinstance(s, ast.If)]
-        if len(h.body) == 1 and len(ifs) == 1 and norm(ifs[0].test) == "discard_invalid_rows":
-            swallow = not any(isinstance(x, ast.Raise) for b in ifs[0].body for x in ast.walk(b))
-            reraise = any(isinstance(x, ast.Raise) for b in ifs[0].orelse for x in ast.walk(b))
-            ok3 = swallow and reraise
+        def outcome(stmts, flag: bool) -> str:
+            """'raise' / 'fall' / '?' for the handler block when discard_invalid_rows == flag"""
+            for s in stmts:
+                if isinstance(s, ast.Raise):
+                    return "raise"
+                if isinstance(s, ast.If):
+                    t = norm(s.test)
+                    if t == "discard_invalid_rows":
+                        o = outcome(s.body if flag else s.orelse, flag)
+                    elif t == "not discard_invalid_rows":
+                        o = outcome(s.orelse if flag else s.body, flag)
+                    else:
+                        return "?"
+                    if o != "fall":
+                        return o
+                elif any(isinstance(x, (ast.Raise, ast.Return, ast.Break, ast.Continue)) for x in ast.walk(s)) or \
+                        isinstance(s, (ast.For, ast.While, ast.Try, ast.With)):
+                    return "?"
+            return "fall"
+        ok3 = outcome(h.body, True) == "fall" and outcome(h.body, False) == "raise"
     ctx.check(ok3, "R-C18-3", r, trs[0] if trs else ad, "invalid (zero-length) rows are skipped iff discard_invalid_rows, the error is re-raised otherwise",
               bad_detail="the ValueError of a zero-length row is not {swallowed iff discard_invalid_rows, re-raised otherwise}", key="invalid-rows")
     ctx.check("discard_invalid_rows" in r.params, "R-C18-3", r, None, "parameter discard_invalid_rows exists", construct="signature", key="param")
@@ -182,17 +199,41 @@ def run(ctx: Ctx):
                       bad_detail=f"annotations are skipped on `{norm(s.test)}`: not every non-empty interval of the selected tiers becomes a unit",
                       key=f"{qn}:skip")
             body.remove(s)
-        ifs = [s for s in body if isinstance(s, ast.If)]
-        if len(body) != 1 or len(ifs) != 1 or norm(ifs[0].test) != "use_tier_as_annotation":
-            ctx.bad("R-C18-4", g, I, "body is not `if use_tier_as_annotation: add(..., tier_name) else: add(..., label)`", key=f"{qn}:branch")
-            return
+        # evaluate the body once per value of use_tier_as_annotation: straight-line locals are substituted, the flag picks the branch
+        import copy as _copy
+
+        class _Subst(ast.NodeTransformer):
+            def __init__(self, env):
+                self.env = env
+
+            def visit_Name(self, n):
+                if isinstance(n.ctx, ast.Load) and n.id in self.env:
+                    return _copy.deepcopy(self.env[n.id])
+                return n
+
+        def evaluate(stmts, flag: bool, env: dict, adds: list) -> bool:
+            for s in stmts:
+                if isinstance(s, ast.Assign) and len(s.targets) == 1 and isinstance(s.targets[0], ast.Name):
+                    env[s.targets[0].id] = _Subst(env).visit(_copy.deepcopy(s.value))
+                elif isinstance(s, ast.If) and norm(s.test) in ("use_tier_as_annotation", "not use_tier_as_annotation"):
+                    take_body = flag == (norm(s.test) == "use_tier_as_annotation")
+                    if not evaluate(s.body if take_body else s.orelse, flag, env, adds):
+                        return False
+                elif isinstance(s, ast.Expr) and isinstance(s.value, ast.Call) and norm(s.value.func) == f"{gs}.add" and not s.value.keywords:
+                    adds.append((s.value, [norm(_Subst(env).visit(_copy.deepcopy(a))) for a in s.value.args]))
+                else:
+                    return False
+            return True
         st, en = start_end(I)
-        for branch, want, nm in ((ifs[0].body, tn, "tier"), (ifs[0].orelse, label_expr(I), "label")):
-            cs = [c for s in branch for c in ast.walk(s) if isinstance(c, ast.Call) and norm(c.func) == f"{gs}.add"]
-            ok = len(cs) == 1 and len(branch) == 1 and len(cs[0].args) == 3 and norm(cs[0].args[0]) == ann and \
-                norm(cs[0].args[1]) == f"Segment({st}, {en})" and norm(cs[0].args[2]) == want
-            ctx.check(ok, "R-C18-4", g, cs[0] if cs else ifs[0], f"{nm} mode: add(annotator, Segment(file start, file end), {want})",
-                      bad_detail=f"{nm} mode does not add (annotator, Segment({st}, {en}), {want})", key=f"{qn}:{nm}")
+        for flag, want, nm in ((True, tn, "tier"), (False, label_expr(I), "label")):
+            adds: list = []
+            if not evaluate(body, flag, {}, adds):
+                ctx.undecided("R-C18-4", g, I, "body is not made of local assignments, `if use_tier_as_annotation` and add(...) calls: shape not recognised "
+                              "(not a verdict)", key=f"{qn}:{nm}")
+                continue
+            ok = len(adds) == 1 and adds[0][1] == [ann, f"Segment({st}, {en})", want]
+            ctx.check(ok, "R-C18-4", g, adds[0][0] if adds else I, f"{nm} mode: add(annotator, Segment(file start, file end), {want})",
+                      bad_detail=f"{nm} mode does not add exactly (annotator, Segment({st}, {en}), {want}): adds {[a for _, a in adds]}", key=f"{qn}:{nm}")
     tier_reader("Continuum.add_textgrid",
                 lambda g, I, tn: norm(I.iter) in [norm(s.targets[0] if isinstance(s, ast.Assign) else s.target) for s in ast.walk(g.node)
                                                  if isinstance(s, (ast.Assign, ast.AnnAssign)) and isinstance(s.value, ast.Call) and
